@@ -92,9 +92,12 @@ class FileAdapter(ExternalStateAdapter):
             }
         }
 
-        f = open(os.path.join(self.path, str(state.instance_id) + ".json"), "w")
+        # write the new state next to the old one and swap it in: a crash in the middle of the write leaves the previous state intact
+        target = os.path.join(self.path, str(state.instance_id) + ".json")
+        f = open(target + ".tmp", "w")
         f.write(jsonpickle.dumps(data))
         f.close()
+        os.replace(target + ".tmp", target)
 
 
     def _load_state(self) -> list[InstanceState]:
@@ -102,6 +105,8 @@ class FileAdapter(ExternalStateAdapter):
         instance_paths = os.listdir(self.path)
 
         for instance_uuid in instance_paths:
+            if not instance_uuid.endswith(".json"):
+                continue        # e.g. the half-written temporary file of an interrupted save
             instance = self._load_instance(instance_uuid.split(".")[0])
             # a file that cannot be read (e.g. truncated by a crash) costs that one instance only
             if instance is not None:
